@@ -151,11 +151,11 @@ def run_grouped(p, items):
     ops = [rs.ops.group_by(lambda i: i[0], [drive.tap(head), rs.ops.map(lambda i: i[1])] + A.build_pipeline(p, A.Env()) + [drive.tap(tail)])]
     r = drive.store([tuple(i) for i in items], ops)
     keymap = {}
-    for kind, key, item in head:
+    for kind, key, item, _t in head:
         if kind == 'n':
             keymap[key] = item[0]
     per = {}
-    for kind, key, item in tail:
+    for kind, key, item, _t in tail:
         if kind == 'n':
             per.setdefault(keymap.get(key, ('?', key)), []).append(item)
     return r, per
